@@ -59,6 +59,103 @@ func (h *lostUpdate) setTmp(id, v int) { h.tmp[id] = v }
 //go:norace
 func (h *lostUpdate) getTmp(id int) int { return h.tmp[id] }
 
+// forkJoin: thread 0 starts two further threads with Spawn (what a rewritten go statement
+// does), optionally waits for them with WaitZero (what WaitGroup.Wait does), then reads what
+// they wrote.  mode 2 never counts the children down: the wait can never end.
+type forkJoin struct {
+	mode int // 0: no wait, 1: wait, 2: wait for ever
+	word int32
+	res  [2]int
+	seen int
+}
+
+//go:norace
+func (h *forkJoin) add(d int32) { h.word += d }
+
+//go:norace
+func (h *forkJoin) set(k int) { h.res[k] = 1 }
+
+//go:norace
+func (h *forkJoin) sum() int { return h.res[0] + h.res[1] }
+
+//go:norace
+func (h *forkJoin) setSeen(v int) { h.seen = v }
+
+//go:norace
+func (h *forkJoin) getSeen() int { return h.seen }
+
+func (h *forkJoin) Threads() int { return 1 }
+func (h *forkJoin) Init()        { *h = forkJoin{mode: h.mode} }
+func (h *forkJoin) Run(id int) {
+	for k := 0; k < 2; k++ {
+		k := k
+		h.add(1)
+		if !Spawn(func() {
+			Point("child")
+			h.set(k)
+			if h.mode != 2 {
+				h.add(-1)
+			}
+		}) {
+			panic("Spawn refused")
+		}
+	}
+	if h.mode != 0 {
+		WaitZero(&h.word, "wait")
+	}
+	h.setSeen(h.sum())
+}
+func (h *forkJoin) Finish() []string {
+	if h.getSeen() != 2 {
+		return []string{fmt.Sprintf("parent saw %d of 2 results", h.getSeen())}
+	}
+	return nil
+}
+func (h *forkJoin) Key() (uint64, bool) { return 0, false }
+
+func selfTestSpawn() error {
+	if NoGo {
+		return nil
+	}
+	run := func(mode, bound int) (bad, dead, execs int64, threads int, err error) {
+		e := &Explorer{H: &forkJoin{mode: mode}, Bound: bound}
+		e.OnExec = func(x *Execution) {
+			if len(x.Failures) > 0 {
+				bad++
+			}
+			if x.Deadlock {
+				dead++
+			}
+			threads = x.Threads
+		}
+		err = e.Explore()
+		return bad, dead, e.Executions, threads, err
+	}
+	// joined: no schedule lets the parent see a partial result
+	bad, dead, n1, th, err := run(1, -1)
+	if err != nil || bad != 0 || dead != 0 || th != 3 || n1 < 10 {
+		return fmt.Errorf("fork/join with wait: %d failing, %d deadlocked of %d executions, %d threads, err %v", bad, dead, n1, th, err)
+	}
+	if _, _, n2, _, _ := run(1, -1); n2 != n1 {
+		return fmt.Errorf("fork/join: %d executions, then %d", n1, n2)
+	}
+	// not joined: already the non-preemptive schedules show the partial result; other schedules do not
+	bad, _, n, _, err := run(0, 0)
+	if err != nil || bad == 0 {
+		return fmt.Errorf("fork without join must fail at bound 0 (%d of %d, err %v)", bad, n, err)
+	}
+	bad, _, n, _, err = run(0, -1)
+	if err != nil || bad == 0 || bad == n {
+		return fmt.Errorf("fork without join, unbounded: %d of %d executions fail (err %v)", bad, n, err)
+	}
+	// a wait that cannot end is a deadlock in every schedule
+	bad, dead, n, _, err = run(2, -1)
+	if err != nil || dead != n || bad != n {
+		return fmt.Errorf("endless wait: %d deadlocks, %d failures in %d executions (err %v)", dead, bad, n, err)
+	}
+	return nil
+}
+
 func binom(n, k int) int64 {
 	r := int64(1)
 	for i := 1; i <= k; i++ {
@@ -121,5 +218,5 @@ func SelfTest() error {
 	if _, err := ex.Run([]int{5}); err == nil {
 		return fmt.Errorf("an out-of-range replayed choice must be a hard error")
 	}
-	return nil
+	return selfTestSpawn()
 }
